@@ -27,6 +27,10 @@ class ToolError(Exception):
     pass
 
 
+class CpuLimit(Exception):
+    """the code under test used more CPU time than the driver's budget (a runaway computation)"""
+
+
 class HarnessPanic(Exception):
     """a driver died of a panic of the code under test; the violation is already recorded"""
 
@@ -179,9 +183,20 @@ class Check:
             raise ToolError("harness build failed (the repository under test does not compile "
                             "against the harness):\n" + tail)
 
-    def harness(self, args, timeout=600, check=True):
+    def harness(self, args, timeout=600, check=True, cpu_limit=None):
+        """cpu_limit: seconds of CPU TIME the driver may use (RLIMIT_CPU); exceeding it kills the
+        process with a signal, which raises CpuLimit - unlike the wall-clock `timeout` (a tool
+        error) this does not depend on how busy the machine is."""
+        pre = None
+        if cpu_limit:
+            import resource
+
+            def pre():
+                resource.setrlimit(resource.RLIMIT_CPU, (int(cpu_limit), int(cpu_limit) + 5))
         p = subprocess.run([VH] + [str(a) for a in args], stdout=subprocess.PIPE,
-                           stderr=subprocess.PIPE, text=True, timeout=timeout)
+                           stderr=subprocess.PIPE, text=True, timeout=timeout, preexec_fn=pre)
+        if cpu_limit and p.returncode < 0:
+            raise CpuLimit(f"harness {args[0]} was killed by signal {-p.returncode} after using its CPU-time budget of {cpu_limit} s")
         if check and p.returncode == 3:
             # the code under test panicked where the driver did not expect it: an observation
             msg = next((ln for ln in p.stdout.splitlines() if ln.startswith("UNGUARDED-PANIC")), "")
